@@ -15,6 +15,15 @@ class ToyFail(Exception):
     pass
 
 
+def _env_key(environment):
+    """tag (and shuffle seed) of a toy environment or of the pipeline built on it"""
+    try:
+        p = dict(environment.params)
+        return "%s-%s" % (p.get("tag"), p.get("shuffle_seed", "")) if "shuffle_seed" in p else str(p.get("tag"))
+    except Exception:
+        return str(getattr(environment, "tag", "x"))
+
+
 class ToyEnv:
     def __init__(self, tag, xs, fail_at=None, params_fail=False):
         self.tag, self.xs, self.fail_at, self.params_fail = tag, list(xs), fail_at, params_fail
@@ -107,6 +116,14 @@ class ToyEval:
         return {"tag": self.tag, "seed": self.seed}
 
     def evaluate(self, environment, learner):
+        """every ToyFail that leaves an evaluation carries the key of the triple (`@e<env>.l<learner>.v<evaluator>`),
+        so that the log can be checked per triple"""
+        try:
+            yield from self._evaluate(environment, learner)
+        except ToyFail as e:
+            raise ToyFail("%s@e%s.l%s.v%s" % (e, _env_key(environment), learner.tag, self.tag)) from None
+
+    def _evaluate(self, environment, learner):
         seed = self.seed if self.seed is not None else CobaContext.store.get("experiment_seed")
         if self.fail_at == 0:
             raise ToyFail("TOYFAIL:val%d:evaluate" % self.tag)
